@@ -74,7 +74,7 @@ def _spec_binned(ctx, obs, native, spectrum):
 @harness('C06', 'loglike',
          quick=[dict(sampler='nestle', nobs=2, npar=2), dict(sampler='multinest', nobs=2, npar=2), dict(sampler='polychord', nobs=2, npar=2),
                 dict(sampler='nestle', nobs=3, npar=1), dict(sampler='nestle', nobs=2, npar=2, mismatch=True)],
-         thorough=[dict(sampler=s, nobs=2, npar=2, seq=3, _shards=4) for s in ('nestle', 'multinest', 'polychord')] +
+         thorough=[dict(sampler=s, nobs=2, npar=1, seq=3, _shards=4) for s in ('nestle', 'multinest', 'polychord')] +
                   [dict(sampler='nestle', nobs=3, npar=2, seq=2, _shards=4)] +
                   [dict(sampler='nestle', nobs=3, npar=3, _shards=2), dict(sampler='polychord', nobs=2, npar=2, mismatch=True),
                    dict(sampler='multinest', nobs=3, npar=2, mismatch=True, _shards=2)],
